@@ -40,6 +40,7 @@ type lcase struct {
 	Se       bool    `json:"se"` // `stderr:` file
 	Ou       bool    `json:"ou"` // `output:` variable
 	Sc       bool    `json:"sc"` // `script:`
+	Arr      bool    `json:"arr"` // the command is given in array form (`command: [sh]`): Command/Args set, no CmdWithArgs
 	Limit    int     `json:"limit"`
 	Fails    int     `json:"fails"`    // the first `fails` attempts exit 1
 	Attempts [][]seg `json:"attempts"` // what attempt k prints (k = 0 …)
@@ -176,10 +177,18 @@ func runOne(c lcase) (res map[string]any) {
 	step := dag.Step{Name: "s", Dir: tmp}
 	if c.Sc {
 		step.Script = body.String()
-		step.CmdWithArgs = "sh"
+		if c.Arr {
+			step.Command, step.Args = "sh", []string{}
+		} else {
+			step.CmdWithArgs = "sh"
+		}
 	} else {
 		_ = os.WriteFile(filepath.Join(tmp, "body.sh"), []byte(body.String()), 0o755)
-		step.CmdWithArgs = "sh " + filepath.Join(tmp, "body.sh")
+		if c.Arr {
+			step.Command, step.Args = "sh", []string{filepath.Join(tmp, "body.sh")}
+		} else {
+			step.CmdWithArgs = "sh " + filepath.Join(tmp, "body.sh")
+		}
 	}
 	outF, errF := filepath.Join(tmp, "out.txt"), filepath.Join(tmp, "err.txt")
 	if c.So {
